@@ -156,6 +156,27 @@ type w struct {
 	b strings.Builder
 }
 
+// Keys returns the key leaf names of a list in key-statement order.
+func (n *Node) Keys() []string { return strings.Fields(n.Key) }
+
+// FirstKey is the key leaf whose value names the entries of a list in paths and data trees.
+func (n *Node) FirstKey() string {
+	if ks := n.Keys(); len(ks) > 0 {
+		return ks[0]
+	}
+	return ""
+}
+
+// IsKey reports whether name is one of the list's key leaves.
+func (n *Node) IsKey(name string) bool {
+	for _, k := range n.Keys() {
+		if k == name {
+			return true
+		}
+	}
+	return false
+}
+
 // EmptyPresence is the Presence value that renders as `presence "";` (the field itself is non-empty: the node is a
 // presence container for every model).
 const EmptyPresence = "\x00empty-presence"
